@@ -790,21 +790,57 @@ def _c_invoke():
             ('cli_defaultCoCond', '(driverIsDefault coIsDefault : Bool)', 'Bool', cocond, 'FuseCommand.invoke: ' + U(co.test).replace('\n', ' '))]
 
 
+def _f_process():
+    """fuse.py process: the block fan-out (submit every block, await every future in completion order, re-raise)"""
+    from homonim.fuse import RasterFuse
+    fn = fn_body(src_of(RasterFuse.process))
+    withs = [n for n in ast.walk(fn) if isinstance(n, ast.With) and U(n.items[0].context_expr).startswith('self._out_files(')]
+    if len(withs) != 1 or len(withs[0].body) != 1 or not isinstance(withs[0].body[0], ast.If):
+        raise TranslationError('process: body of `with self._out_files(...)`')
+    br = withs[0].body[0]
+    if U(br.test) != "block_config['threads'] == 1":
+        raise TranslationError(f'process: branch `{U(br.test)}`')
+    seq = [U(x) for x in br.body]
+    if seq != ['block_pairs = [block_pair for block_pair in self.block_pairs(**block_pair_args)]',
+               'for block_pair in tqdm(block_pairs, bar_format=bar_format):\n    self._process_block(block_pair, model, corr_im=out_im, param_im=param_im)']:
+        raise TranslationError(f'process: single-thread branch {seq}')
+    ops = ['.sequentialWhenOneThread']
+    if len(br.orelse) != 1 or not isinstance(br.orelse[0], ast.With) or \
+            U(br.orelse[0].items[0].context_expr) != "futures.ThreadPoolExecutor(max_workers=block_config['threads'])":
+        raise TranslationError('process: thread pool')
+    body = br.orelse[0].body
+    if len(body) != 2:
+        raise TranslationError(f'process: thread-pool body has {len(body)} statements')
+    sub = U(body[0]).replace('\n', ' ').replace('  ', ' ')
+    if ' '.join(sub.split()) != ('proc_futures = [executor.submit(self._process_block, block_pair, model, out_im, param_im) '
+                                 'for block_pair in self.block_pairs(**block_pair_args)]'):
+        raise TranslationError(f'process: submission `{sub}`')
+    ops.append('.submitEvery')
+    loop = body[1]
+    if not (isinstance(loop, ast.For) and U(loop.target) == 'future' and 'futures.as_completed(proc_futures)' in U(loop.iter)):
+        raise TranslationError('process: loop over completed futures')
+    ops.append('.awaitEveryCompleted')
+    if [U(x) for x in loop.body] != ['future.result()'] or loop.orelse:
+        raise TranslationError(f'process: body of the completion loop {[U(x) for x in loop.body]}')
+    ops.append('.reraise')
+    return [('fanOut', '', 'List FanOp', '[' + ', '.join(ops) + ']', 'RasterFuse.process: the block fan-out')]
+
+
 # one extractor per source function: a failure in one leaves the others (and the properties they serve) alone
 SECTIONS = [_k_fit_gain, _k_fit_gain_offset, _k_r2, _k_blk, _s_cmp, _s_cmp_mean, _s_stats, _g_blocks, _g_resolve, _g_auto,
-            _g_overlap, _g_expand, _g_round, _g_covers, _g_pindex, _s_cmp_block, _m_cover, _a_bounded, _p_r2band, _f_prog, _f_outfiles, _c_invoke]
+            _g_overlap, _g_expand, _g_round, _g_covers, _g_pindex, _s_cmp_block, _m_cover, _a_bounded, _p_r2band, _f_prog, _f_outfiles, _c_invoke, _f_process]
 # definition-name prefixes each extractor is responsible for (used to attribute a failed extraction to properties)
 PROVIDES = {'_k_fit_gain': ('fitGain_',), '_k_fit_gain_offset': ('fitGainOffset_',), '_k_r2': ('r2_',),
             '_k_blk': ('blk_', 'blockNorm_', 'applyParams'), '_s_cmp': ('cmp_',), '_s_cmp_mean': ('cmp_meanRow',),
             '_s_stats': ('stats_',), '_g_blocks': ('blocks_',), '_g_resolve': ('resolveAutoIsRef',), '_g_auto': ('autoBlock_',),
             '_g_overlap': ('overlapForKernel',), '_g_expand': ('expandWindow_',), '_g_round': ('roundBounds_',),
             '_g_covers': ('covers_axis',), '_g_pindex': ('paramIndex',), '_s_cmp_block': ('cmpPx_',), '_m_cover': ('cover_',),
-            '_a_bounded': ('bounded_',), '_p_r2band': ('stats_isR2Band', 'stats_inpainted'), '_f_prog': ('prog',), '_f_outfiles': ('outFilesEvents',), '_c_invoke': ('cli_',)}
+            '_a_bounded': ('bounded_',), '_p_r2band': ('stats_isR2Band', 'stats_inpainted'), '_f_prog': ('prog',), '_f_outfiles': ('outFilesEvents',), '_c_invoke': ('cli_',), '_f_process': ('fanOut',)}
 # which generated definitions (by name prefix) bear on which property's check
 SERVES = {
     'C01': ('fitGain', 'r2_', 'blk_', 'blockNorm_'), 'C02': ('fitGain', 'r2_', 'blk_', 'blockNorm_', 'applyParams'),
     'C07': ('fitGain', 'r2_', 'blk_', 'blockNorm_', 'applyParams'), 'C14': ('applyParams', 'paramIndex'),
-    'C04': ('prog',), 'C09': ('prog', 'outFilesEvents'), 'C10': ('outFilesEvents',), 'C11': ('cmp_', 'cmpPx_'), 'C12': ('stats_',), 'C17': ('cover_',), 'C20': ('bounded_',), 'C05': ('overlapForKernel', 'blocks_'),
+    'C04': ('prog', 'fanOut'), 'C09': ('prog', 'outFilesEvents', 'fanOut'), 'C10': ('outFilesEvents',), 'C11': ('cmp_', 'cmpPx_'), 'C12': ('stats_',), 'C17': ('cover_',), 'C20': ('bounded_',), 'C05': ('overlapForKernel', 'blocks_'),
     'C06': ('blocks_', 'expandWindow_', 'roundBounds_', 'autoBlock_'), 'C16': ('covers_axis',), 'C18': ('resolveAutoIsRef',), 'C19': ('cli_',),
 }
 # theorems outside Props/Cxx.lean audited with a property's proof leg: (module, theorem name prefix) - the source-text tie
